@@ -434,10 +434,15 @@ class MatchScoreProp(MatchLine):
             attr = instance.Attribute
         interpret_fun, format_fun, value_type = class_dict[attr]
 
+        value = instance.Value
+        if attr == "tempoIndication" and isinstance(value, list):
+            # versions < 1.0.0 keep the words of the tempo indication in a list
+            value = MatchTempoIndication(" ".join(str(v) for v in value))
+
         return cls(
             version=version,
             attribute=attr,
-            value=instance.Value,
+            value=value,
             value_type=value_type,
             format_fun=format_fun,
             measure=getattr(instance, "Measure", measure if measure is not None else 1),
